@@ -176,6 +176,13 @@ pub fn profile(prop: &str) -> Option<Profile> {
             p.ops.extend_from_slice(&[(Op::CloneVec, 3), (Op::Cap, 8), (Op::Views, 2), (Op::RawTrip, 1), (Op::MoveVec, 3)]);
             p.world_ok = has_sim_or_heap;
             p.focus = [focus_put(), focus_take(false), focus_drain_splice(false)].concat();
+            p.focus.push(f(Op::CloneVec, 0, 0, 0, 0));
+            p.focus.push(f(Op::CloneVec, 0, 0, 0, 0));
+            p.focus.push(f(Op::Clear, 0, VIA_ERASED, 0, 0));
+            p.focus.push(f(Op::DropVec, 0, 0, 0, 0));
+            for kind in 0..4u8 {
+                p.focus.push(f(Op::Cap, kind, VIA_ERASED, 0, 0));
+            }
             p
         }
         "C06" => {
